@@ -649,7 +649,7 @@ pub fn run_mode(mode: Mode, tier: &str, seed: u64, out: &mut Out) {
     // parse_*: every string of at most 3 tokens over {true,false,-1,12,300,a,space,U+00F1} x a parse
     // operation x a second operation from a small set (both orders) x both bases
     {
-        let ptoks: [&[u8]; 8] = [b"true", b"false", b"-1", b"12", b"300", b"a", b" ", "ñ".as_bytes()];
+        let ptoks: [&[u8]; 10] = [b"true", b"false", b"-1", b"12", b"300", b"a", b" ", "ñ".as_bytes(), b"-0", b"0"];
         let pops = [Op::ParseBool, Op::ParseInt("u8"), Op::ParseInt("i8"), Op::ParseInt("i16"), Op::ParseInt("u64")];
         let others = [
             Op::TrimStart, Op::Trim, Op::SkipBack(1), Op::Skip(1), Op::P(M::StripPrefix, Pat::S("true")),
@@ -663,6 +663,32 @@ pub fn run_mode(mode: Mode, tier: &str, seed: u64, out: &mut Out) {
                     for b2 in &others {
                         run_history(out, mode, base, &w, &[*a, *b2], false);
                         run_history(out, mode, base, &w, &[*b2, *a], false);
+                    }
+                }
+            }
+        }
+    }
+    // self-overlapping ("bordered") needles on strings over {a, b}: front and back matches of a two-sided
+    // trim can share bytes, find/rfind can overlap; alone and after an operation that moved the start
+    {
+        let ab: [&[u8]; 2] = [b"a", b"b"];
+        let bordered = [Pat::S("aba"), Pat::S("aa"), Pat::S("abab"), Pat::S("a"), Pat::S("bab")];
+        let firsts = [None, Some(Op::Skip(1)), Some(Op::P(M::StripSuffix, Pat::S("a"))), Some(Op::P(M::FindSkip, Pat::S("b")))];
+        let lb = if thorough { 8 } else { 6 };
+        for w in all_words(&ab, lb).iter().map(to_str) {
+            for (wi, base) in [0usize, 7].iter().enumerate() {
+                for m in PAT_METHODS {
+                    for p in bordered {
+                        for f in &firsts {
+                            // keep the volume down: the prefixed variants only for one base
+                            if f.is_some() && wi == 1 {
+                                continue;
+                            }
+                            match f {
+                                None => run_history(out, mode, *base, &w, &[Op::P(m, p)], false),
+                                Some(f) => run_history(out, mode, *base, &w, &[*f, Op::P(m, p)], false),
+                            }
+                        }
                     }
                 }
             }
